@@ -84,6 +84,19 @@ HllArray<A>* HllArray<A>::copyAs(target_hll_type tgtHllType) const {
   }
 }
 
+// An HLL_4 image must hold exactly auxCount AUX_TOKEN nibbles: a token without its exception in the aux map
+// would be looked up (through a null map if auxCount is 0) by the first update, iteration or conversion.
+static inline void checkHll4AuxTokens(const uint8_t* arr, uint32_t arrBytes, uint32_t auxCount) {
+  uint32_t tokens = 0;
+  for (uint32_t i = 0; i < arrBytes; ++i) {
+    if ((arr[i] & hll_constants::loNibbleMask) == hll_constants::AUX_TOKEN) ++tokens;
+    if ((arr[i] >> 4) == hll_constants::AUX_TOKEN) ++tokens;
+  }
+  if (tokens != auxCount) {
+    throw std::invalid_argument("HLL_4 image: number of aux tokens does not match the aux count");
+  }
+}
+
 template<typename A>
 HllArray<A>* HllArray<A>::newHll(const void* bytes, size_t len, const A& allocator) {
   if (len < hll_constants::HLL_BYTE_ARR_START) {
@@ -127,6 +140,10 @@ HllArray<A>* HllArray<A>::newHll(const void* bytes, size_t len, const A& allocat
   uint32_t numAtCurMin, auxCount;
   std::memcpy(&numAtCurMin, data + hll_constants::CUR_MIN_COUNT_INT, sizeof(int));
   std::memcpy(&auxCount, data + hll_constants::AUX_COUNT_INT, sizeof(int));
+
+  if (tgtHllType == target_hll_type::HLL_4) {
+    checkHll4AuxTokens(data + hll_constants::HLL_BYTE_ARR_START, arrayBytes, auxCount);
+  }
 
   AuxHashMap<A>* auxHashMap = nullptr;
   typedef std::unique_ptr<AuxHashMap<A>, std::function<void(AuxHashMap<A>*)>> aux_hash_map_ptr;
@@ -202,6 +219,9 @@ HllArray<A>* HllArray<A>::newHll(std::istream& is, const A& allocator) {
   sketch->putNumAtCurMin(numAtCurMin);
   
   read(is, sketch->hllByteArr_.data(), sketch->getHllByteArrBytes());
+  if (tgtHllType == target_hll_type::HLL_4) {
+    checkHll4AuxTokens(sketch->hllByteArr_.data(), sketch->getHllByteArrBytes(), auxCount);
+  }
   
   if (auxCount > 0) { // necessarily TgtHllType == HLL_4
     uint8_t auxLgIntArrSize = listHeader[4];
